@@ -37,6 +37,11 @@
 //	         alphabet (three RSA keys of one size, AES-KW, GCM-KW, ECDH-ES+KW on
 //	         two curves, same algorithm with different keys) x enc x zip x size
 //	         x aad: every recipient decrypts wherever it stands (mrecip.go)
+//	keep     every ordered pair (A, B) of objects (encrypted x {none, DEF} x
+//	         size, signed x size): the slices Decrypt / Verify / GetAuthData
+//	         returned for A, the texts the serialisers returned and the buffers
+//	         handed in are HELD, not copied, while B is made, opened, opened
+//	         again, refused; they must read the same after every step (retain.go)
 package main
 
 import (
@@ -1532,13 +1537,14 @@ var jweSers = []string{"compact", "json+aad", "json", "json+aad0"}
 
 func run(c *hl.Ctx) {
 	initKeys()
-	c.Rule("Matrix, exhaustive: every (signature alg x key variant x payload size x serialisation) and every (key-management alg [x curve x key variant] x content encryption x zip x plaintext size x serialisation) is signed/encrypted, serialised, parsed and verified/decrypted once, also with a different key of the same kind and a key of another kind, and re-checked by an independent RFC 7515/7516/7518 implementation; reference-built objects go the other way. Fault enumeration: for every object at the tamper sizes, each octet-string field (protected, payload/ciphertext, iv, tag, encrypted_key, signature, aad) is base64url-decoded, one bit is flipped, the field re-encoded and the object re-assembled, parsed and verified/decrypted with the right key (thorough: every bit of every field of every object at the tamper sizes, the 256-octet plaintext only uncompressed and compact; quick: every bit for every signed object except ES384/ES512 and for one designated encrypted combination per (alg family x enc family); for the rest the first and last bit of every octet of fields up to 64 octets and of the first 32, last 32 and every 8th octet of longer fields, key variant 0 only, DEF only with the compact serialisation, and for recipients that are not the first of their family only A192CBC-HS384 and A256GCM without compression). One evaluation = one matrix cell or one flipped object. Non-trivial = a matrix cell whose object round-tripped to exactly the payload and passed the reference, or a flipped object that the parser still accepted, so that rejection had to come from the cryptographic check (flips the parser rejects are counted separately as tamper_rejected_by_parser). Distinctness key = (part, alg, curve, key, enc, zip, size, serialisation[, field, bit])." + msigRule + hinjRule + histRule + mrecRule)
+	c.Rule("Matrix, exhaustive: every (signature alg x key variant x payload size x serialisation) and every (key-management alg [x curve x key variant] x content encryption x zip x plaintext size x serialisation) is signed/encrypted, serialised, parsed and verified/decrypted once, also with a different key of the same kind and a key of another kind, and re-checked by an independent RFC 7515/7516/7518 implementation; reference-built objects go the other way. Fault enumeration: for every object at the tamper sizes, each octet-string field (protected, payload/ciphertext, iv, tag, encrypted_key, signature, aad) is base64url-decoded, one bit is flipped, the field re-encoded and the object re-assembled, parsed and verified/decrypted with the right key (thorough: every bit of every field of every object at the tamper sizes, the 256-octet plaintext only uncompressed and compact; quick: every bit for every signed object except ES384/ES512 and for one designated encrypted combination per (alg family x enc family); for the rest the first and last bit of every octet of fields up to 64 octets and of the first 32, last 32 and every 8th octet of longer fields, key variant 0 only, DEF only with the compact serialisation, and for recipients that are not the first of their family only A192CBC-HS384 and A256GCM without compression). One evaluation = one matrix cell or one flipped object. Non-trivial = a matrix cell whose object round-tripped to exactly the payload and passed the reference, or a flipped object that the parser still accepted, so that rejection had to come from the cryptographic check (flips the parser rejects are counted separately as tamper_rejected_by_parser). Distinctness key = (part, alg, curve, key, enc, zip, size, serialisation[, field, bit])." + msigRule + hinjRule + histRule + mrecRule + keepRule)
 	c.Assume("Go standard library primitives (AES, SHA-2, HMAC, RSA, ECDSA, GCM, DEFLATE, math/big) are correct",
 		"ECDSA, PSS, OAEP, CEK, IV and ephemeral-key randomness comes from crypto/rand and is not pinned: oracles are round trip and rejection, never byte equality of randomised output; one object per matrix cell",
 		"the reference (verif/ref/joseref) passes the RFC 7518 B.1-B.3, RFC 3394 4.1/4.6 and RFC 7518 appendix C vectors (go test ./ref/joseref)",
 		"clauses keyed ref/... compare the serialised form with RFC 7515/7516/7518 (what another implementation would accept); they are kept apart from the round-trip and tamper clauses",
 		"part hist: the harness's nonce sources are deterministic scripts and record what they hand out; payload and authenticated-data buffers given to Sign/Encrypt are never modified afterwards (an object may alias them); one goroutine",
 		"part mrec: a key that is no recipient (and a recipient's key tried on another recipient's entry: wrong-key AES key unwrap, GCM key unwrap, OAEP, ECDH-derived key unwrap, and the random content key RSA1_5 substitutes on a padding failure) opens neither an entry nor the content except with negligible probability",
+		"part keep: the harness never writes to a slice the library returned or was given and keeps no other reference to it; one goroutine, so every change of a held item between two comparisons was made by the library call(s) of the step in between; a result that shares storage with a later call only under some runtime conditions (e.g. a sync.Pool entry surviving between the calls) is reported when those conditions occur in one of the pairs - the oracle itself does not depend on them; the part runs with GOMAXPROCS(1) (restored afterwards) so that per-processor runtime caches behave alike in the enumeration and in a replay",
 		"part hinj: the reference signer (HMAC, PKCS#1 v1.5, PSS with a fixed salt, ECDSA with a fixed nonce) and the harness's own JSON/compact serialiser produce what a peer could send; an attacker-made signature (other key, HMAC under the DER public key) or a single-bit change of a signature value does not verify under the genuine key except with negligible probability")
 	c.Info("payload_sizes", sizes)
 	c.Info("jwe_serialisations", jweSers)
@@ -1701,6 +1707,8 @@ func run(c *hl.Ctx) {
 	runHinjAll(c, mine)
 	// ---- hist: one signer / encrypter, several calls, objects examined afterwards (history.go)
 	runHistAll(c, mine)
+	// ---- keep: results, texts and handed-in buffers held across later calls (retain.go)
+	runKeepAll(c, mine)
 	// ---- mrec: recipient order of multi-recipient encrypted objects (mrecip.go)
 	runMrecAll(c, mine)
 	// ---- fault enumeration on fresh objects of the tamper cells (own running
@@ -1816,6 +1824,10 @@ func replay(c *hl.Ctx, raw json.RawMessage) {
 	}
 	if cs.Part == "mrec" {
 		replayMrec(c, raw)
+		return
+	}
+	if cs.Part == "keep" {
+		replayKeep(c, raw)
 		return
 	}
 	obj := cs.Object
